@@ -143,8 +143,55 @@ def extra_out_dumpers():
                 report2("fresh-result", "the dump result is a mapping stored in the object or shared between two calls")
             if repr(obj) != snap:
                 report2("modifies-nothing", f"the object changed from {snap} to {obj!r}")
+    # ... and a model with an OPTIONAL output field (TypedDict NotRequired key): the generated dumper then collects the targets one by
+    # one at run time (`extra_stack`) instead of unpacking them into one literal
+    from typing import TypedDict
+    try:
+        from typing import NotRequired
+    except ImportError:  # pragma: no cover
+        from typing_extensions import NotRequired
+
+    class TD(TypedDict):
+        a: int
+        c: NotRequired[str]
+        x1: Any
+        x2: Dict[str, int]
+        x3: Any
+    n3 = 0
+    for targets, dt in itertools.product((["x1", "x2"], ["x2", "x1"], ["x1", "x3"], ["x3", "x2", "x1"]), DebugTrail):
+        skip = [f_ for f_ in ("x1", "x2", "x3") if f_ not in targets]
+        dumper = Retort(recipe=[name_mapping(TD, extra_out=targets, skip=skip)], debug_trail=dt).get_dumper(TD)
+        for has_c, e1, e2 in itertools.product((False, True), ({}, {"k": 1}), ({}, {"m": 2})):
+            n3 += 1
+            obj = {"a": 1, "x1": dict(e1), "x2": dict(e2), "x3": {"z": 3}}
+            if has_c:
+                obj["c"] = "cc"
+            snap = repr(obj)
+            label = f"typeddict; targets={'+'.join(targets)}; {dt.name}; c={'present' if has_c else 'absent'} x1={e1!r} x2={e2!r}"
+
+            def report3(clause, detail):
+                viol.append({"unit": "model dumper with extra_out", "clause": clause, "witness": label,
+                             "w": {"input": f"TypedDict {obj!r} with extra_out={targets!r}"[:300], "native_outcome": detail[:300]}})
+            try:
+                out1, out2 = dumper(obj), dumper(obj)
+            except Exception as e:  # noqa: BLE001
+                report3("dumps", f"raised {type(e).__name__}: {e}")
+                continue
+            want = {"a": 1}
+            if has_c:
+                want["c"] = "cc"
+            for t_ in targets:
+                want.update({"x1": e1, "x2": e2, "x3": {"z": 3}}[t_])
+            if out1 != want or out2 != want:
+                report3("extras-merged", f"dumps gave {out1!r} then {out2!r}, expected {want!r}")
+            if any(out1 is obj[t_] for t_ in ("x1", "x2", "x3")) or out1 is out2:
+                report3("fresh-result", "the dump result is a mapping stored in the object or shared between two calls")
+            if repr(obj) != snap:
+                report3("modifies-nothing", f"the object changed from {snap} to {obj!r}")
     return {"obligations": 0, "discharged": 0, "violations": viol, "solver_time": 0.0,
-            "bounded": [{"unit": "model dumpers with extra_out (extractor / target field)",
+            "bounded": [{"unit": "model dumpers with several extra_out targets on a TypedDict with a NotRequired key (targets collected at run time)",
+                         "bound": f"{n3} dumps: 4 target lists x 3 debug-trail modes x 8 objects"},
+                        {"unit": "model dumpers with extra_out (extractor / target field)",
                          "bound": f"{n} dumps: 5 configurations x 3 debug-trail modes x 8 objects (every subset of omitted fields, empty / non-empty extras)"},
                         {"unit": "model dumpers with several extra_out targets (as-is and typed mappings, both orders)",
                          "bound": f"{n2} dumps: 4 target lists x omit_default on/off x 3 debug-trail modes x 8 objects"}],
